@@ -58,6 +58,14 @@ def run(chk):
                        tags_has=["quad:trapezoid", "abs", "p:up_red", "p:down_red", "p:travel_times", "interp:linear", "pad"], loc=r.fi.loc())
                 if trim:
                     expect(chk, "R-SE-TYPE", c + "[trimmed]", r.ret, shape=(3, "n"), loc=r.fi.loc())
+                # the summed wave is integrated as formed: a store of a constant into entries of the sum (both waves already in it) replaces the
+                # motion of those rows / samples by that constant, whatever the reductions are
+                ow = [e for e in r.events("mutation", SE) if e.how == "subscript-store" and e.target is not None and
+                      {"pad", "interp:linear"} <= set(e.target.tags) and e.value is not None and e.value.has_const() and
+                      "quad:trapezoid" not in e.target.tags]
+                chk.ob("R-SE-SIGN", c + "{wave sum untouched}", "no entries of the summed wave are overwritten before it is integrated", not ow,
+                       derived=("`%s` stores the constant %r into the summed wave" % (ow[0].stmt, ow[0].value.const)) if ow else "no store into the sum",
+                       loc=ow[0].loc if ow else r.fi.loc(), stmt=ow[0].stmt if ow else None, nontrivial=False)
                 rows_rule(chk, r, c)
                 r2 = analyse(chk, CUM, build)
                 c2 = "eqsig/surface.py:calc_cum_abs_surface_energy" + tag
@@ -537,7 +545,7 @@ def wave_summary(chk, fi, c):
         oki = ast.unparse(call.func).split(".")[-1] == "interp" and len(call.args) >= 3 and pos_ok and \
             _xp_ok(call.args[1]) and nm.poly(call.args[2]).canon() == "1*asig.values" and _zero2(kwn.get("left")) and _zero2(kwn.get("right"))
         chk.ob("R-SE-SIGN", c + "{delayed wave}", "down = np.interp(positions, arange(npts), record, left=0, right=0)", oki, derived=norm_stmt(dw),
-               loc=fi.loc(dw))
+               loc=fi.loc(dw), inconclusive=ast.unparse(call.func).split(".")[-1] != "interp")      # built without np.interp: not located
     # nodal branches
     for n in ast.walk(fi.node):
         if isinstance(n, ast.If) and isinstance(n.test, ast.Name) and n.test.id == "nodal":
